@@ -143,6 +143,20 @@ class Fam:
                     p["inc"].remove(names[1])
         for i in reversed(range(nprog)):
             self.make_functions(i, big and i == 0)
+        # where the pragmas stand: the decision to save is taken from the state at the END of the file
+        for i, p in enumerate(self.progs):
+            nf = len(p["fns"])
+            if p["save"]:
+                p["sb"] = rng.weighted([("top", 4), ("mid", 4), ("end", 3), ("inc-top", 1), ("inc-end", 2), ("toggle-on", 2)])
+            else:
+                p["sb"] = rng.weighted([("none", 3), ("toggle-off", 1)])
+            p["sb_at"] = rng.range(1, nf) if nf else 0          # "mid": after this many functions
+            p["st"] = rng.weighted([("top", 3), ("mid", 2), ("end", 1)]) if p["types"] else "none"
+            p["st_at"] = rng.range(1, nf) if nf else 0
+            if p["sb"] in ("inc-top", "inc-end"):
+                nm = "s%d.h" % i
+                self.incs[nm] = {"k": rng.range(1, 50), "nested": None, "pragma": True}
+                p["sbinc"] = nm
 
     def ident(self):
         while True:
@@ -260,24 +274,34 @@ class Fam:
         t = ""
         if d["nested"]:
             t += '#include "%s"\n' % d["nested"]
+        if d.get("pragma"):
+            t += "#pragma save_binary\n"
         t += "#define K_%s %d\n" % (nm.replace(".", "_").upper(), d["k"])
         return t
 
     def inc_list(self, i):
         """include files as the compiler records them: in order of inclusion, nested ones after their parent"""
         out = []
-        for nm in self.progs[i]["inc"]:
+        p = self.progs[i]
+        if p.get("sb") == "inc-top":
+            out.append(self.inc_path(p["sbinc"]))
+        for nm in p["inc"]:
             out.append(self.inc_path(nm))
             if self.incs[nm]["nested"]:
                 out.append(self.inc_path(self.incs[nm]["nested"]))
+        if p.get("sb") == "inc-end":
+            out.append(self.inc_path(p["sbinc"]))
         return out
 
     def text(self, i):
         p = self.progs[i]
+        sb, st = p.get("sb", "top" if p["save"] else "none"), p.get("st", "top" if p["types"] else "none")
         t = ""
-        if p["save"]:
+        if sb in ("top", "toggle-on", "toggle-off"):
             t += "#pragma save_binary\n"
-        if p["types"]:
+        if sb == "inc-top":
+            t += '#include "%s"\n' % p["sbinc"]
+        if st == "top":
             t += "#pragma save_types\n"
         for nm in p["inc"]:
             t += '#include "%s"\n' % nm
@@ -286,14 +310,29 @@ class Fam:
         for f in p["fns"]:
             if "pre" in f:
                 t += f["pre"].replace("@K@", str(p["k"])) + "\n"
-        for f in p["fns"]:
+        for n, f in enumerate(p["fns"]):
             t += f["body"].replace("@K@", str(p["k"])) + "\n"
+            if sb == "mid" and n + 1 == p["sb_at"]:
+                t += "#pragma save_binary\n"
+            if sb == "toggle-on" and n + 1 == p["sb_at"]:
+                t += "#pragma no_save_binary\n"
+            if st == "mid" and n + 1 == p["st_at"]:
+                t += "#pragma save_types\n"
+        if st == "end":
+            t += "#pragma save_types\n"
+        if sb in ("end", "toggle-on"):
+            t += "#pragma save_binary\n"
+        if sb == "toggle-off":
+            t += "#pragma no_save_binary\n"
+        if sb == "inc-end":
+            t += '#include "%s"\n' % p["sbinc"]
         return t
 
     def decl(self, i):
         p = self.progs[i]
-        return "prog %s save=%d inc=%s inh=%s" % (self.path(i), 1 if p["save"] else 0, ",".join(self.inc_list(i)) or "-",
-                                                  ",".join(self.path(j) for j in p["inh"]) or "-")
+        ssw = sum(1 for f in p["fns"] if f["kind"] == "sswitch")
+        return "prog %s save=%d inc=%s inh=%s ssw=%d" % (self.path(i), 1 if p["save"] else 0, ",".join(self.inc_list(i)) or "-",
+                                                         ",".join(self.path(j) for j in p["inh"]) or "-", ssw)
 
     def all_names(self):
         names = ["#global_init#"]
@@ -305,33 +344,30 @@ class Fam:
         return names
 
     def calls(self):
+        """(call tokens, expectations): every label of every string switch is called (a sample of 12 for big tables);
+        the value the source prescribes for it is the expectation"""
         rng = self.rng
-        out = []
+        toks, expect = [], []
         for p in self.progs:
             for f in p["fns"]:
-                if not f["public"]:
+                if not f["public"] or len(toks) > 300:
                     continue
                 if f["kind"] == "sswitch":
                     ls = f["labels"]
-                    picks = ls if len(ls) <= 6 else rng.shuffle(ls)[:6]
-                    for l in picks:
-                        out.append((f["name"], [l]))
-                    out.append((f["name"], ["no such label"]))
+                    picks = list(range(len(ls))) if len(ls) <= 12 else sorted(set([0, len(ls) - 1] + rng.shuffle(list(range(len(ls))))[:10]))
+                    for k in picks:
+                        tok = "%s:%%%s" % (f["name"], hx(ls[k]))
+                        toks.append(tok)
+                        expect.append((tok, "%s-%d" % (f["name"], k)))
+                    toks.append("%s:%%%s" % (f["name"], hx("no such label")))
                 elif f["args"] == 2:
-                    out.append((f["name"], [rng.choice(WORDS), rng.choice(WORDS)]))
+                    toks.append("%s:%s:%s" % (f["name"], rng.choice(WORDS), rng.choice(WORDS)))
                 else:
-                    out.append((f["name"], [rng.choice(WORDS)]))
-        out = out[:60]
-        # arguments are single tokens for the harness: spaces are not allowed, so only labels without spaces are called
-        toks = []
-        for fn, args in out:
-            if any(" " in a or ":" in a for a in args):
-                continue
-            toks.append(":".join([fn] + args))
-        return toks
+                    toks.append("%s:%s" % (f["name"], rng.choice(WORDS)))
+        return toks, expect
 
 
-def sys_case(rng, cid, steps=None, nprog=None, big=False, script=None):
+def sys_case(rng, cid, steps=None, nprog=None, big=False, script=None, mode=None):
     fam = Fam(rng, cid, nprog=nprog, big=big)
     t = 1000
     L = ["clean /" + fam.dir]
@@ -347,8 +383,13 @@ def sys_case(rng, cid, steps=None, nprog=None, big=False, script=None):
     L.append("mtime /simul_efun.c %d" % (t - 500))
     objs = [fam.obj(i) for i in range(len(fam.progs))]
     L.append("restart " + " ".join(objs))
-    calls = fam.calls()
+    calls, expect = fam.calls()
     L.append("calls " + " ".join(calls))
+    for tok, want in expect:
+        L.append("expect %s %s" % (tok, want))
+    # every reload of the case either in this process or each in a process of its own (a new driver as far as string
+    # addresses and loaded programs go)
+    mode = mode or rng.choice(["reload", "reloadp"])
     names = fam.all_names()
 
     def reload():
@@ -356,7 +397,7 @@ def sys_case(rng, cid, steps=None, nprog=None, big=False, script=None):
         t += 10
         L.append("now %d" % t)
         L.append("intern " + " ".join(hx(n) for n in rng.shuffle(names)))
-        L.append("reload " + " ".join(objs))
+        L.append(mode + " " + " ".join(objs))
         t += 10
 
     reload()           # the first compile
@@ -450,6 +491,11 @@ def boundary():
             c = sys_case(E.Rng(seed + 10 * k), "p%d_%d" % (k, seed), nprog=3, script=script)
             c.id = "b-sys-%d-" % seed + "-".join(script)
             B.append(c)
+    # pragma positions (top / between functions / end / in an include / toggled), same process and new process
+    for k in range(12):
+        c = sys_case(E.Rng(6000 + k), "q%d" % k, nprog=2, script=["nothing", "nothing"], mode=["reloadp", "reload"][k % 2])
+        c.id = "b-sys-pragma-%d" % k
+        B.append(c)
     big = sys_case(E.Rng(77), "bbig", nprog=1, big=True, script=["nothing"])
     big.id = "b-sys-switch-beyond-32k"
     B.append(big)
@@ -469,6 +515,19 @@ def generate(rng, n, tier):
 def histogram(cases, impl):
     h = {"unit_cases": 0, "sys_cases": 0, "reloads": 0, "binary_used": 0, "stale": 0, "needs_inherit": 0, "saves": 0,
          "permuted_reloads": 0, "switch_tables": 0, "programs_dumped": 0, "usort": 0, "upatch": 0, "call_results": 0}
+    h["fresh_process_reloads"] = sum(1 for c in cases for l in c.lines if l.startswith("reloadp "))
+    h["string_case_expectations"] = sum(1 for c in cases for l in c.lines if l.startswith("expect "))
+    pos = {}
+    for c in cases:
+        for l in c.lines:
+            if l.startswith("file ") and l.split()[1].endswith(".c") and "/c17/w/" in l:
+                t = bytes.fromhex(l.split()[2]).decode(errors="replace").splitlines()
+                idx = [i for i, x in enumerate(t) if x.strip() == "#pragma save_binary"]
+                k = "none" if not idx else "top" if idx[-1] == 0 else "last" if idx[-1] >= len(t) - 2 else "between"
+                if any("no_save_binary" in x for x in t):
+                    k += "+toggle"
+                pos[k] = pos.get(k, 0) + 1
+    h["save_binary_pragma_position"] = pos
     for c in cases:
         lines = impl.get(c.id, [])
         if any(l.startswith("begin ") for l in lines):
